@@ -54,11 +54,17 @@ TIES = {
     "C14": "tie: translator (purge / cleanup / publication plan extracted from run_multiround_bitbirch: Gen/GMrDel.v, "
            "Proofs/GenTieMrDel.v); " + _CORR + " at every crash point and for failures inside workers",
     "C15": "tie: translator (option normalisation translated, plan of estimator calls extracted statement by statement "
-           "from cli._run: Gen/GCli.v, Proofs/GenTieCli.v); " + _CORR + " (CLI vs API)",
+           "from cli._run: Gen/GCli.v, Proofs/GenTieCli.v; decision tree of _validate_output_dir: Gen/GCliVd.v, "
+           "Proofs/GenTieCliVd.v; the plan is given a denotation on the estimator model in Proofs/CliRun.v); " + _CORR
+           + " (CLI vs API)",
     "C16": "tie: translator (parse_num_per_batch, split plan: Gen/GUtil.v, Proofs/GenTieUtil.v); " + _CORR
            + " (real worker calls on shared memory / directories in arbitrary order)",
-    "C20": "tie: translator (update condition of the monitor: Gen/GMon.v); " + _CORR
-           + " with the real monitor stopped before every file operation",
+    "C20": "tie: translator (update condition, file-operation sequence and file names of the monitor, shape of the "
+           "reader: Gen/GMon.v, Gen/GMonOps.v, Proofs/GenTieMon.v, Proofs/GenTieMonOps.v); " + _CORR
+           + " with the real monitor stopped before every file operation and a process-wide probe of every "
+           "file-changing primitive",
+    "C17": "tie: translator (BitBirch.__init__, set_merge, tolerance getter and property setters interpreted "
+           "symbolically into Gen/GConfig.v; Proofs/GenTieConfig.v); " + _CORR,
 }
 
 
